@@ -1112,6 +1112,15 @@ struct MapS {
 }
 gen_struct!(MapS { m, n, o });
 
+/// maps whose VALUES are options (a `None` value is a map entry, not an absent struct field)
+#[derive(Serialize, Deserialize, PartialEq, Debug, Clone)]
+struct MapOpt {
+    m: BTreeMap<String, Option<i64>>,
+    n: BTreeMap<String, Option<Inner>>,
+    last: i64,
+}
+gen_struct!(MapOpt { m, n, last });
+
 #[derive(Serialize, Deserialize, PartialEq, Debug, Clone)]
 struct MapK {
     m: BTreeMap<UnitK, String>,
@@ -1656,7 +1665,7 @@ fn run_tomlvalue(seed: u64, depth: u32, holder: bool) -> String {
 pub const TYPES: &[&str] = &[
     "Prims", "Nested", "MapS", "MapK", "Seqs", "Tuples", "Opts", "Enums", "EnumSeq", "EnumMap", "EnumNest", "Mixed", "OptTbl", "Empties", "Dts",
     "Floats", "Strs", "RootE", "RootMap", "RootMapE", "Deep", "IntEdge", "Wide", "Units", "SeqNone", "BadKeys", "CharKeys", "NtKeys", "RootVec",
-    "RootInt", "RootStr", "RootTuple", "RootOpt", "RootNt", "RootUnit", "RootDt", "RootE2", "TomlValue", "Holder",
+    "RootInt", "RootStr", "RootTuple", "RootOpt", "RootNt", "RootUnit", "RootDt", "RootE2", "TomlValue", "Holder", "MapOpt",
 ];
 
 fn typed(name: &str, seed: u64) -> String {
@@ -1666,6 +1675,7 @@ fn typed(name: &str, seed: u64) -> String {
         "Nested" => run_typed::<Nested>(seed, d),
         "MapS" => run_typed::<MapS>(seed, d + 1),
         "MapK" => run_typed::<MapK>(seed, d),
+        "MapOpt" => run_typed::<MapOpt>(seed, d + 1),
         "Seqs" => run_typed::<Seqs>(seed, d + 1),
         "Tuples" => run_typed::<Tuples>(seed, d),
         "Opts" => run_typed::<Opts>(seed, d + 1),
